@@ -1,5 +1,255 @@
 /-
-C13 — property theorems (stub: not built yet).
+C13 — The backtracking stack limit is honoured and otherwise invisible.
+
+Three layers (see design.d/C13.md):
+ 1. facts about runner.go / syntax/code.go regenerated on every run (`Generated/Opcodes.lean`): what every
+    `case` of the interpreter switch does to the backtracking stack, which opcodes `opcodeBacktracks` counts;
+ 2. the abstract capacity system `RegexVerif.Capacity` (moves `go`/`pop` over `(pc, used, cap)` with a storage
+    check on every backward or in-place jump): the invariant `used + Φ(pc) ≤ cap`;
+ 3. the allocation arithmetic `alloc0 / grow / ensure` mirroring initMatch / growTrack / ensureStorage.
+The abstract system is not an interpreter model: that every concrete opcode case is one of its moves is
+tied to the Go source by layer 1, and the arithmetic is tied to the running code by the correspondence legs.
 -/
+import RegexVerif.Lemmas.Capacity
+
 namespace RegexVerif.Props.C13
+open RegexVerif RegexVerif.Capacity RegexVerif.Lemmas.Capacity RegexVerif.Generated
+
+/-! ### 1. obligations regenerated from the Go source -/
+
+/-- No path through any `case` of `executeDefault` pushes more than 4 slots on the backtracking stack,
+    and no push helper (`trackPush` … `trackPushNeg2`) writes more than 4 slots.  This is the `4` of
+    `runtrackcount*4` in `ensureStorage`. -/
+theorem push_le_four :
+    Opcodes.cases.all (fun c => decide (c.maxPush ≤ 4)) = true ∧
+    Opcodes.pushHelperSlots.all (fun h => decide (h.2 ≤ 4)) = true := by decide
+
+/-- The per-opcode weights the proofs use, as they come out of the current runner.go: for every opcode
+    that pushes, `(opcode, most slots pushed by one visit, largest net growth of the stack by one visit)`.
+    (3–8: the six single-character loops; 23 Lazybranch … 29 Lazybranchcount = 4; 30 Nullmark … 36 Forejump.)
+    A change of any case body that alters its stack effect breaks this obligation. -/
+theorem net_push_table :
+    ((List.range Opcodes.numOpcodes).filterMap fun op =>
+      if weight op = 0 ∧ netOf op = 0 then none else some (op, weight op, netOf op)) =
+    [(3, 3, 3), (4, 3, 3), (5, 3, 3), (6, 3, 3), (7, 3, 3), (8, 3, 3),
+     (23, 2, 2), (24, 3, 3), (25, 3, 3), (26, 1, 1), (27, 1, 1), (28, 3, 3), (29, 4, 4),
+     (30, 1, 1), (31, 1, 1), (32, 2, 2), (33, 2, 2), (34, 1, 1), (36, 2, 2)] := by decide
+
+/-- The stack effect of every case of the interpreter switch that touches the backtracking stack, as read from
+    the current runner.go: `(opcode, 0 forward / 1 Back / 2 Back2, most slots pushed, fewest and most slots popped
+    explicitly)`.  Any edit of a case body that changes what it pushes or pops breaks this obligation, which
+    forces the weights and the invariant to be re-examined. -/
+theorem case_fingerprints :
+    (Opcodes.cases.filter (fun c => c.maxPush != 0 || c.maxPop != 0)).map
+      (fun c => (c.op, c.flag, c.maxPush, c.minPop, c.maxPop)) =
+    [(3, 0, 3, 0, 0), (3, 1, 3, 2, 2), (4, 0, 3, 0, 0), (4, 1, 3, 2, 2), (5, 0, 3, 0, 0), (5, 1, 3, 2, 2),
+     (6, 0, 3, 0, 0), (6, 1, 3, 2, 2), (7, 0, 3, 0, 0), (7, 1, 3, 2, 2), (8, 0, 3, 0, 0), (8, 1, 3, 2, 2),
+     (23, 0, 2, 0, 0), (23, 1, 0, 1, 1), (24, 0, 3, 0, 0), (24, 1, 2, 2, 2), (24, 2, 0, 1, 1),
+     (25, 0, 3, 0, 0), (25, 1, 3, 2, 2), (25, 2, 0, 2, 2), (26, 0, 1, 0, 0), (27, 0, 1, 0, 0),
+     (28, 0, 3, 0, 0), (28, 1, 3, 1, 1), (28, 2, 0, 2, 2), (29, 0, 4, 0, 0), (29, 1, 2, 3, 3), (29, 2, 0, 1, 1),
+     (30, 0, 1, 0, 0), (31, 0, 1, 0, 0), (32, 0, 2, 0, 0), (32, 1, 0, 1, 1), (33, 0, 2, 0, 0), (33, 1, 0, 1, 1),
+     (34, 0, 1, 0, 0), (36, 0, 2, 0, 0), (36, 1, 0, 1, 1)] := by decide
+
+/-- The literals of the allocation model are those of runner.go: `ensureStorage` loops while
+    `Runtrackpos < runtrackcount*4` around `growTrack`, `initMatch` allocates `max(64, 8*runtrackcount)`, `goTo` checks
+    storage when `newpos <= codepos`, `backtrack` when `newpos < codepos` (model: `ensure`, `alloc0`, `checks`). -/
+theorem storage_constants :
+    Opcodes.ensureFactor = 4 ∧ Opcodes.allocFactor = 8 ∧ Opcodes.allocMin = 64 ∧
+    Opcodes.goToGuard = "<=" ∧ Opcodes.backtrackGuard = "<" := by decide
+
+/-- Shape of the case bodies that lets a case be read as `go k p t` / `pop`: `backtrack()` pops exactly
+    the saved code position; within a case all pops come before all pushes; a case that pushes never
+    ends in `backtrack()`; only UpdateBumpalong touches `runtrack` directly and it pushes nothing; `trackto`
+    (cut back to a saved level) occurs only in Backjump and Forejump; `| Back` / `| Back2` cases exist only
+    for opcodes that push, and every opcode that pushes has a `| Back` case to come back to; every case
+    label is an opcode below `Mask`; `Mask` is `0b111111`. -/
+theorem case_shape :
+    Opcodes.backtrackPops = 1 ∧
+    Opcodes.cases.all (fun c =>
+      !c.popAfterPush && !c.pushOnBack &&
+      (!c.raw || (c.op == Opcodes.opUpdateBumpalong && c.maxPush == 0)) &&
+      (!c.trackto || c.op == Opcodes.opBackjump || c.op == Opcodes.opForejump) &&
+      (c.flag == 0 || decide (0 < weight c.op)) &&
+      decide (c.op < Opcodes.numOpcodes) && decide (c.flag ≤ 2)) = true ∧
+    (List.range Opcodes.numOpcodes).all (fun op =>
+      weight op == 0 || Opcodes.cases.any (fun c => c.op == op && c.flag == 1)) = true ∧
+    Opcodes.numOpcodes ≤ Opcodes.flagMask + 1 ∧ Opcodes.flagMask = 63 := by decide
+
+/-- Every opcode whose case pushes is counted by `opcodeBacktracks` (so contributes 1 to `TrackCount`) —
+    with the single exception of Nullmark, which pushes one slot and is not counted.  Goto is counted and
+    pushes nothing; the writer emits `Nullmark` only directly followed by a `Goto` (loops with minimum 0), which
+    is what pays for it (`potential_le_need`). -/
+theorem backtracks_cover_pushes :
+    (∀ op, op < Opcodes.numOpcodes → 0 < weight op → (backtracks op = true ∨ op = Opcodes.opNullmark)) ∧
+    weight Opcodes.opNullmark = 1 ∧ backtracks Opcodes.opNullmark = false ∧
+    weight Opcodes.opGoto = 0 ∧ backtracks Opcodes.opGoto = true := by decide
+
+/-- The same as one inequality per opcode, the form the summation lemma uses:
+    `weight op + 4·[op = Goto] ≤ 4·[opcodeBacktracks op] + [op = Nullmark]`. -/
+theorem op_bound_table : OpBoundTable := by unfold OpBoundTable; decide
+
+/-- For every program (list of the opcodes of its instructions, any numbers at all) that has at least as
+    many Goto as Nullmark instructions: everything its positions can push, Φ(0) = Σ weight, is at most
+    `4 * TrackCount` — the amount of free space every storage check establishes. -/
+theorem potential_le_need (prog : List Nat)
+    (hpair : count Opcodes.opNullmark prog ≤ count Opcodes.opGoto prog) :
+    phi (weights prog) 0 ≤ trackCount prog * 4 := by
+  have := weights_sum_bound op_bound_table prog
+  rw [phi_zero]
+  omega
+
+/-- non-vacuity: `(?:ab?)*c`-like program  Lazybranch Nullmark Goto One Oneloop Branchmark One Stop:
+    potential 2+1+0+0+3+3 = 9 ≤ 4·4 -/
+example : phi (weights [23, 30, 38, 9, 3, 24, 9, 40]) 0 = 9 ∧ trackCount [23, 30, 38, 9, 3, 24, 9, 40] = 4 ∧
+    count Opcodes.opNullmark [23, 30, 38, 9, 3, 24, 9, 40] ≤ count Opcodes.opGoto [23, 30, 38, 9, 3, 24, 9, 40] := by
+  decide
+
+/-! ### 2. the abstract capacity system -/
+
+/-- **Invariant.**  If every storage check that succeeds leaves `used + need ≤ cap` (and never shrinks the
+    stack) and `need` covers the whole potential Φ(0), then `used + Φ(pc) ≤ cap` is preserved by every legal
+    move: a forward move spends the weight of the position it leaves, a backward or in-place move goes through
+    a check, a pop only frees space. -/
+theorem track_inv {ws : List Nat} {need : Nat} {ens : Nat → Nat → Option Nat}
+    (hens : EnsSpec need ens) (hneed : phi ws 0 ≤ need)
+    {s s' : St} {m : Move} (hinv : TrackInv ws s) (hl : legal ws s.l m) (h : step ens s m = some s') :
+    TrackInv ws s' :=
+  step_inv hens hneed hinv hl h
+
+/-- **No overflow.**  Start as `executeDefault` does (a check with nothing used), make any legal moves that
+    the checks let through: when the next legal move executes, the slots in use at its deepest point — after its
+    pushes, before any check — fit in the capacity.  In Go terms `Runtrackpos = cap - used ≥ 0` at every store
+    `runtrack[Runtrackpos] = …`, so the index −1 (the panic that commit 23c41f0 removed) is unreachable. -/
+theorem track_no_overflow {ws : List Nat} {need : Nat} {ens : Nat → Nat → Option Nat}
+    (hens : EnsSpec need ens) (hneed : phi ws 0 ≤ need)
+    {cap0 : Nat} {s0 s : St} (ms : List Move) (m : Move)
+    (hstart : start ens cap0 = some s0)
+    (hlegal : LegalRun ws s0.l (ms ++ [m]))
+    (hrun : run ens s0 ms = some s) :
+    peak s.l m ≤ s.cap := by
+  have h0 := start_inv (ws := ws) hens hneed hstart
+  have hl := legalRun_append ms m s0.l hlegal
+  have hinv := run_inv hens hneed ms s0 s h0.1 hl.1 hrun
+  have hsl := run_l ms s0 s hrun
+  exact peak_le hinv (by rw [hsl]; exact hl.2)
+
+/-- The same for the real check and the real sizing: any program with Goto/Nullmark paired as the writer pairs
+    them, its `TrackCount`, any limit `L` (negative = none). -/
+theorem track_no_overflow_program (prog : List Nat)
+    (hpair : count Opcodes.opNullmark prog ≤ count Opcodes.opGoto prog) (L : Int)
+    {s0 s : St} (ms : List Move) (m : Move)
+    (hstart : start (ensOf L (trackCount prog)) (alloc0 L (trackCount prog)) = some s0)
+    (hlegal : LegalRun (weights prog) s0.l (ms ++ [m]))
+    (hrun : run (ensOf L (trackCount prog)) s0 ms = some s) :
+    peak s.l m ≤ s.cap :=
+  track_no_overflow (ensOf_spec L _) (potential_le_need prog hpair) ms m hstart hlegal hrun
+
+/-- non-vacuity: the program above under limit 80; Lazybranch pushes 2, Nullmark 1, Goto jumps forward to
+    Branchmark, which pushes 3 and loops back (a check), One, Oneloop pushes 3, Branchmark again, One fails and
+    backtracks into Branchmark|Back (pops 2, pushes 2, goes on), the last One fails and backtracks again (a check).  The run is legal, passes
+    all checks, and the capacity stays 64. -/
+example :
+    let prog := [23, 30, 38, 9, 3, 24, 9, 40]
+    let ms := [Move.go 0 2 1, .go 0 1 2, .go 0 0 5, .go 0 3 3, .go 0 0 4, .go 0 3 5, .go 0 3 3, .pop 1 5, .go 2 2 6, .pop 1 5]
+    ∃ s0 s, start (ensOf 80 (trackCount prog)) (alloc0 80 (trackCount prog)) = some s0 ∧
+      LegalRun (weights prog) s0.l ms ∧ run (ensOf 80 (trackCount prog)) s0 ms = some s ∧
+      s = ⟨⟨5, 10⟩, 64⟩ := by
+  refine ⟨⟨⟨0, 0⟩, 64⟩, ⟨⟨5, 10⟩, 64⟩, ?_⟩
+  decide
+
+/-! ### 3. allocation arithmetic -/
+
+/-- **What a successful `ensureStorage` establishes**: at least `4 * TrackCount` free slots, and the stack was
+    not shrunk (it is unchanged if there was room already).  This is `EnsSpec (4·tc)`, the hypothesis of
+    `track_inv`.  It was false before commit 23c41f0 (next example). -/
+theorem ensure_establishes (L : Int) (tc len used : Nat) (h : (ensure L tc len used).2 = true) :
+    used + tc * 4 ≤ (ensure L tc len used).1 ∧ len ≤ (ensure L tc len used).1 ∧
+    ((ensure L tc len used).1 = len ∨ len < used + tc * 4) := by
+  have := ensure_spec L tc len used
+  simp only at this
+  exact ⟨(this.2.1 h).1, this.1, (this.2.1 h).2⟩
+
+/-- the old single-growth formula at L = 257, len = 256 (tc = 13, 210 slots used): it reports success with
+    only 47 free slots instead of 52; the present loop reports the failure. -/
+example : (ensureOld 257 13 256 210).2 = true ∧ ¬ (210 + 13 * 4 ≤ (ensureOld 257 13 256 210).1) ∧
+    (ensure 257 13 256 210) = (257, false) := by decide
+
+/-- and a success that needs two growths under a limit: 64 → 128 → 200 -/
+example : ensure 200 13 64 100 = (200, true) ∧ ensure (-1) 13 64 100 = (256, true) := by decide
+
+/-- the instance of the abstract check built from `ensure` meets the specification `track_inv` needs -/
+theorem ensure_is_check (L : Int) (tc : Nat) : EnsSpec (tc * 4) (ensOf L tc) := ensOf_spec L tc
+
+/-- **The limit is honoured**: with `L ≥ 0` the initial allocation is at most `L`, a growth never goes beyond `L`,
+    a storage check (successful or not) leaves the length at most `L`, and so does every state of a run of the
+    abstract system started by `start` from the initial allocation. -/
+theorem cap_le_limit (L : Int) (h0 : 0 ≤ L) (tc : Nat) :
+    (alloc0 L tc : Int) ≤ L ∧
+    (∀ (len n : Nat), grow L len = some n → (n : Int) ≤ L) ∧
+    (∀ (len used : Nat), (len : Int) ≤ L → ((ensure L tc len used).1 : Int) ≤ L) ∧
+    (∀ s0 s ms, start (ensOf L tc) (alloc0 L tc) = some s0 → run (ensOf L tc) s0 ms = some s → (s.cap : Int) ≤ L) := by
+  refine ⟨alloc0_le L tc h0, ?_, ?_, ?_⟩
+  · intro len n h; exact (grow_some h).2.2.1 h0
+  · intro len used hl; exact (ensure_spec L tc len used).2.2.2 (fun _ => hl) h0
+  · intro s0 s ms hs hr
+    apply run_cap_le h0 ms s0 s _ hr
+    unfold start at hs
+    cases he : ensOf L tc (alloc0 L tc) 0 with
+    | none => simp [he] at hs
+    | some c => simp [he] at hs; subst hs; exact ensOf_le h0 (alloc0_le L tc h0) he
+
+example : alloc0 100 20 = 100 ∧ alloc0 (-1) 20 = 160 ∧ alloc0 1000 3 = 64 ∧ alloc0 0 3 = 0 ∧
+    grow 100 64 = some 100 ∧ grow 100 100 = none ∧ grow (-1) 100 = some 200 ∧ grow 5 0 = some 1 ∧ grow 0 0 = none := by
+  decide
+
+/-- **Exact failure criterion**: a storage check with `used` slots in use succeeds iff there is no limit or
+    `used + 4·tc ≤ L` — whatever the current length (as long as it respects the limit).  So whether a call fails
+    does not depend on how large the pooled stack already is, and the smallest limit under which a call succeeds
+    is (largest `used` at a check) + 4·tc: the threshold leg O/A measures on the real code. -/
+theorem ensure_ok_iff (L : Int) (tc len used : Nat) (hlen : 0 ≤ L → (len : Int) ≤ L) :
+    (ensure L tc len used).2 = true ↔ (L < 0 ∨ ((used + tc * 4 : Nat) : Int) ≤ L) :=
+  Lemmas.Capacity.ensure_ok_iff L tc len used hlen
+
+/-- when the check fails the stack has been grown to exactly `L` (and `L ≥ 0`) -/
+theorem ensure_fail_len (L : Int) (tc len used : Nat) (hlen : (len : Int) ≤ L)
+    (h : (ensure L tc len used).2 = false) : 0 ≤ L ∧ ((ensure L tc len used).1 : Int) = L := by
+  have := (ensure_spec L tc len used).2.2.1 h
+  exact ⟨this.1, this.2.2 hlen⟩
+
+/-- **Raising the limit never turns a success into an error** (arithmetic level): if the check succeeds under
+    `L` for some demand, it succeeds for the same demand under any larger limit and under no limit, whatever
+    the lengths the two stacks have at that moment. -/
+theorem limit_monotone (L L' : Int) (tc len len' used : Nat)
+    (hlen : 0 ≤ L → (len : Int) ≤ L) (hlen' : 0 ≤ L' → (len' : Int) ≤ L')
+    (hLL : L' < 0 ∨ (0 ≤ L ∧ L ≤ L'))
+    (h : (ensure L tc len used).2 = true) : (ensure L' tc len' used).2 = true := by
+  rw [ensure_ok_iff L tc len used hlen] at h
+  rw [ensure_ok_iff L' tc len' used hlen']
+  omega
+
+example : (ensure 150 13 64 90).2 = true ∧ (ensure 151 13 151 90).2 = true ∧ (ensure 141 13 64 90).2 = false := by
+  decide
+
+/-- **The limit is otherwise invisible** (abstract level): the logical run — code position and stack depth
+    after each move — is a function of the moves alone (`lrun`), not of the capacity, the limit or the check;
+    a check can only stop the run (`none` = ErrBacktrackingStackLimit).  Hence a run that gets through under a
+    limit `L` goes through exactly the logical states of the unlimited run, which never stops. -/
+theorem limit_invisible (L L' : Int) (hL' : L' < 0) (tc : Nat) (s s' : St) (cap' : Nat) (ms : List Move)
+    (h : run (ensOf L tc) s ms = some s') :
+    s'.l = lrun s.l ms ∧
+    ∃ s'', run (ensOf L' tc) ⟨s.l, cap'⟩ ms = some s'' ∧ s''.l = s'.l := by
+  have h1 := run_l ms s s' h
+  obtain ⟨s'', h2⟩ := run_total (ens := ensOf L' tc) (fun c u => ensOf_unlimited L' hL' tc c u) ms ⟨s.l, cap'⟩
+  refine ⟨h1, s'', h2, ?_⟩
+  rw [run_l ms _ s'' h2, h1]
+
+/-- the same moves under limit 100 and without limit: same logical state, different capacity; under limit 60
+    the run is cut off -/
+example :
+    let ms := [Move.go 0 2 1, .go 0 1 2, .go 0 0 5, .go 0 3 3, .pop 1 5] ++
+      (List.replicate 10 [Move.go 0 3 3, .go 0 3 5]).flatten
+    run (ensOf 100 4) ⟨⟨0, 0⟩, 64⟩ ms = some ⟨⟨5, 65⟩, 100⟩ ∧
+    run (ensOf (-1) 4) ⟨⟨0, 0⟩, 64⟩ ms = some ⟨⟨5, 65⟩, 128⟩ ∧
+    run (ensOf 60 4) ⟨⟨0, 0⟩, 60⟩ ms = none := by decide
+
 end RegexVerif.Props.C13
